@@ -69,6 +69,40 @@ T = {
  'C16-D': ('C16', 'synth/processor.v only: pc increment computed in 20 bits', 'code at addresses >= 0x0FFFFF; the two shipped copies differ'),
  'C17-C': ('C17', 'resolveLabels asks for another pass only when a grown reference sits before the last label', 'a reference of >= 2 bytes after the last label with directives behind it: stale offsets in listing and header'),
  'C17-D': ('C17', 'emitProgramBin emits operandSize(value) prefix bytes instead of getSize()', 'a reference whose operand shrank after it was extended: the image is shorter than the listing says'),
+ 'C01-E': ('C01', 'array subscripts: the constant term of e+c / c+e / e-c is folded into the LDAI/STAI offset, and c-e is treated like c+e', 'a[c - e] (reverse indexing) is compiled as a[e + c]'),
+ 'C01-F': ('C01', 'containsCall replaced by a flag computed by a MarkCalls pass that runs before OptimiseExpr, which builds fresh unflagged nodes', 'a call hidden under >, <=, ~=, >= or unary minus in a non-first actual: evaluated after earlier actuals are stored and overwrites them'),
+ 'C02-E': ('C02', 'PFIX/NFIX factored into prefixOperand(), which adds 0xFFFFFF00 instead of OR-ing it', 'an NFIX that is not the first prefix of its chain (PFIX 1; NFIX 2; LDAC 3)'),
+ 'C02-F': ('C02', 'hexsim loader rejects images whose byte size exceeds MEMORY_SIZE_WORDS (a word count)', 'any image of 50001..200000 words is turned away'),
+ 'C03-E': ('C03', 'ADD/SUB merged onto a shared adder; the OPR arm only excludes BRB, so SVC also performs areg + breg', 'an SVC with non-zero breg whose areg is used afterwards'),
+ 'C03-F': ('C03', 'o_syscall driven from a register updated only by LDAM/LDAC/LDAP/LDAI', 'a system-call number computed with ADD/SUB'),
+ 'C04-E': ('C04', 'parseInteger negates in the signed domain and clamps the magnitude at INT_MAX', 'the literal -2147483648 is parsed as -2147483647'),
+ 'C04-F': ('C04', 'emitProgramBin packs the encoding into a uint64_t with int shifts before one write()', 'every encoding of 5..8 bytes (|v| >= 65536) is corrupted by promotion/shift overflow'),
+ 'C05-E': ('C05', 'layout iteration capped at 8 passes ("an encoding has at most 8 bytes")', 'a chain of >= 8 references each growing one pass after the next: the last growth is never laid out'),
+ 'C05-F': ('C05', 'relativeSize() searches the length from 1 while setLabelValue keeps the longer old length', 'a reference whose needed length shrinks behind an alignment gap: operand for the short length, emitted with the long one'),
+ 'C06-E': ('C06', 'processor.sv LDAP zero-extends pc and offset to 32 bits before adding', 'LDAP to a label behind the instruction: address + 0x200000 on the RTL'),
+ 'C06-F': ('C06', 'hextb READ shim calls std::cin.get() instead of io.input(stream)', 'READ from a file stream (>= 256): hextb takes the byte from stdin'),
+ 'C07-E': ('C07', 'peephole deletes LDAC <non-zero>; BRZ L', '`c or e` with a constant non-zero c: the OR template needs the constant in areg as its result'),
+ 'C07-F': ('C07', 'OptimiseExpr simplifies and/or with one constant operand in either position', '`f(x) and false`: the call on the left is no longer evaluated'),
+ 'C08-E': ('C08', 'exit stub lowers sp by 3 and the two reserved words above the initial sp are dropped; stop is left unchanged', 'stop executed on a stack at most one word deep without global arrays: store to word 200000/200001'),
+ 'C08-F': ('C08', 'OptimiseExpr moves a simple left operand of a commutative operator to the right, and/or included', '`flag and (a[i] ~= k)` evaluates a[i] unconditionally: load outside memory'),
+ 'C09-E': ('C09', 'Driver::run opens the -o file before constructing hexasm::CodeGen', 'source rejected only by the built-in assembler (no main ...): diagnostic, but an empty/truncated output file'),
+ 'C09-F': ('C09', 'LocalDeclLocations no longer assigns a frame slot to local vals with a constant initialiser', 'such a val used as a subscript base / assigned to / with --memory-info: null Frame, uninitialised offset'),
+ 'C10-E': ('C10', 'numNibbles counts with `for (limit = 16; limit <= magnitude; limit <<= 4)`', 'magnitudes >= 2^28: limit wraps to 0, hexasm hangs'),
+ 'C10-F': ('C10', 'precedesData split into nextSizedDirective() returning nullptr, dereferenced unchecked', 'a label that is the last directive: SIGSEGV'),
+ 'C11-E': ('C11', 'xcmp lexer reports strtoul range errors through errno without clearing it first', 'after any earlier ERANGE in the process every later source with a number is rejected'),
+ 'C11-F': ('C11', 'emitProgramBin assembles into an uninitialised new char[] image and zeroes only some gaps', 'label directly before a misaligned DATA word: gap bytes are heap garbage'),
+ 'C12-E': ('C12', 'running/exitCode replaced by std::optional<int>; run() returns *exitCode', 'a run cut short by --max-cycles dereferences an empty optional'),
+ 'C12-F': ('C12', 'hexsim loader restyled after hextb: copies contents.size() bytes instead of programSize', 'symbol tables land behind the image: memory that must read as zero'),
+ 'C13-E': ('C13', 'hextb load() reads the file straight into memory_q (no zeroed staging vector)', 'file length not a multiple of 4: the last image word keeps power-on bytes'),
+ 'C13-F': ('C13', 'hextb -t also traces the reset cycles', 'first trace lines print random power-on pc/instr: stdout differs per seed'),
+ 'C14-E': ('C14', 'hexasm Lexer::openFile copies the file into a stringstream with << rdbuf()', 'an empty .S file sets failbit, END_OF_FILE is never reached: rejected instead of assembled'),
+ 'C14-F': ('C14', 'xrun constructs the Processor (copying maxCycles) before the option loop', 'xrun --max-cycles N is accepted and ignored'),
+ 'C15-E': ('C15', 'string table padded to a word boundary: writer pads 4 when already aligned, reader skips 0', 'sum of name lengths + 1 a multiple of 4: the loader reads numSymbols = 0'),
+ 'C15-F': ('C15', 'call statements to a procedure whose body is skip generate no code', 'the trace shows no entry for such calls'),
+ 'C16-E': ('C16', 'MEM_ADDR_WIDTH 21 -> 20 in hex_pkg.sv; processor.v copies keep the inlined widths', 'any pc / LDAP result at or above 1 MB'),
+ 'C16-F': ('C16', 'registered areg-is-zero flag reset to 1 in .sv and to 0 in the .v copies', 'BRZ as the first instruction after reset'),
+ 'C17-E': ('C17', 'listing text column format %-20s -> %-20.20s', 'label operands with long names lose their (value) part'),
+ 'C17-F': ('C17', 'emitProgramBin takes its byte offset from outputFile.tellp()', 'a non-seekable output (pipe): no alignment padding is written'),
 }
 
 
